@@ -32,6 +32,7 @@ void drv_c04_limbs(int tier, unsigned long seed, const char *extra) {
       callf("mpz_realloc", 2, (uint64_t)(ABSIZ(Zp[2]) > 1 ? ABSIZ(Zp[2]) - 1 : 0)); callf("mpz_mul", 2, 0, 1); callf("mpz_realloc", 2, (uint64_t)0); callf("mpz_set", 2, 0);
       callf("mpz_swap", 0, 2); callf("mpz_mul_2exp", 5, 0, (uint64_t)rnd_below(200)); callf("mpz_realloc2", 5, (uint64_t)1);
     }
+    callf("mpz_clear", 3); callf("mpz_init_set", 3, 0); callf("mpz_add", 3, 3, 1);
     callf("mpq_clears", 0, 1, 2); callf("mpz_clears", 0, 1, 2); callf("mpz_clear", 3); callf("mpz_clear", 4); callf("mpz_clear", 5);
     rec_quiesce();
   }
